@@ -74,15 +74,16 @@ type freq struct {
 }
 
 type respScript struct {
-	status  int // 0 = no Status header
-	reason  string
-	hdrs    [][2]string
-	body    []byte
-	withCL  bool
-	cuts    []int // cut points of the stdout stream
-	pads    []int
-	stderr  []string // stderr chunks, interleaved
-	hostile string   // C19: kind of malformed output ("" = conforming)
+	status     int // 0 = no Status header
+	reason     string
+	hdrs       [][2]string
+	body       []byte
+	withCL     bool
+	cuts       []int // cut points of the stdout stream
+	pads       []int
+	stderr     []string // stderr chunks, interleaved
+	stderrLate int      // this many of them come only after the record that ends stdout
+	hostile    string   // C19: kind of malformed output ("" = conforming)
 }
 
 type fcgiRig struct {
@@ -292,10 +293,14 @@ func (p *fcgiPeer) prepare() {
 			si++
 		}
 	}
-	for ; si < len(sc.stderr); si++ {
+	for ; si < len(sc.stderr)-sc.stderrLate; si++ {
 		recs = append(recs, fcgiRecord(fcgiStderr, p.reqID, []byte(sc.stderr[si]), 3))
 	}
 	recs = append(recs, fcgiRecord(fcgiStdout, p.reqID, nil, 0))
+	for ; si < len(sc.stderr); si++ {
+		// (a shutdown function or destructor complaining after the output was closed)
+		recs = append(recs, fcgiRecord(fcgiStderr, p.reqID, []byte(sc.stderr[si]), 1))
+	}
 	if len(sc.stderr) > 0 {
 		recs = append(recs, fcgiRecord(fcgiStderr, p.reqID, nil, 0))
 	}
@@ -555,6 +560,10 @@ func (r *fcgiRig) addReq(i int) {
 	ne := st.Draw(3)
 	for k := 0; k < ne; k++ {
 		sc.stderr = append(sc.stderr, fmt.Sprintf("STDERR-%d-%d warning line\n", i, k))
+	}
+	if len(sc.stderr) > 0 && st.Draw(3) == 0 {
+		sc.stderrLate = 1 + st.Draw(len(sc.stderr))
+		r.c.Probe("stderr-after-stdout-ended")
 	}
 	if r.mode == "C19" && st.Draw(3) != 0 {
 		sc.hostile = hostileKinds[st.Draw(len(hostileKinds))]
